@@ -190,16 +190,12 @@ def check(ctx):
               reason="limit fields are overwritten after construction: %s" % writers, detail="limits written only by new()/builders")
     rb = ctx.body(r"^passage_protocol::connection::\{impl#\d+\}::receive_packet::\{closure#0\}::\{closure#0\}$", rule=RU)
     if rb is not None:
-        ran = ctx.an(rb)
-        hit = False
-        for b in rb.blocks:
-            if b.cleanup or b.term.kind != "switch" or rb.is_noise(b.term):
-                continue
-            e, ls = ran.switch_info(b.idx)
-            if e[0] == "binop" and e[1] in ("Gt", "Ge", "Lt", "Le"):
-                ops = [flow.strip(e[2]), flow.strip(e[3])]
-                if any(self_field(o) == "max_packet_length" for o in ops) and any(bool(calls_in(o, "read_varint")) for o in ops):
-                    hit = True
+        # the configured bound decides: a frame of max bytes is read, a frame of max+1 bytes is not
+        # (sample-point evaluation of the guard over the frame length, pv/sample.py)
+        from .c04 import frame_samples
+        S, MAX = frame_samples(ctx, rb)
+        body_reads = [bb for bb, t in calls(rb, "AsyncReadExt::read_to_end")]
+        hit = bool(body_reads) and all(not S.reachable(MAX + 1, bb) and S.reachable(MAX, bb) for bb in body_reads)
         ctx.check(hit, RU, "C14/connection-uses/max-packet-length-guards-frames", rb.loc,
                   reason="no comparison of the received frame length with self.max_packet_length in receive_packet",
                   detail="frame length compared with self.max_packet_length")
